@@ -178,10 +178,47 @@ def enc_opsets(imports) -> list[str]:
 
 
 def enc_model(m: onnx.ModelProto, opts: dict, lits: Lits, function_name=None, depth: int = 8) -> str:
-    toks = ["export", opts_str(opts), str(depth), "M", hx(m.graph.name), "-" if function_name is None else hx(function_name)]
+    kind = "MF" if len(m.functions) else "M"
+    toks = ["export", opts_str(opts), str(depth), kind, hx(m.graph.name), "-" if function_name is None else hx(function_name)]
     toks += enc_opsets(m.opset_import)
     toks += enc_graph(m.graph, lits)
+    if kind == "MF":
+        toks.append(str(len(m.functions)))
+        for f in m.functions:
+            used: set = set()
+            used.update(f.input)
+            used.update(f.output)
+            for n in f.node:
+                _node_names(n, used)
+            toks += [hx(f.name), hx(f.domain)]
+            toks += [str(len(f.input)), *map(hx, f.input), str(len(f.output)), *map(hx, f.output)]
+            toks += [str(len(f.attribute)), *map(hx, f.attribute)]
+            su = sorted(used)
+            toks += [str(len(su)), *map(hx, su)]
+            toks += enc_opsets(f.opset_import)
+            toks.append(str(len(f.node)))
+            for n in f.node:
+                toks += enc_node(n, lits)
     return " ".join(toks)
+
+
+def _graph_names(g: onnx.GraphProto, acc: set) -> None:
+    acc.update(i.name for i in g.input)
+    acc.update(o.name for o in g.output)
+    acc.update(t.name for t in g.initializer)
+    for n in g.node:
+        _node_names(n, acc)
+
+
+def _node_names(n: onnx.NodeProto, acc: set) -> None:
+    """`_update_names_used_in_node` (empty names included, as in the exporter)"""
+    acc.update(n.input)
+    acc.update(n.output)
+    for a in n.attribute:
+        if a.HasField("g"):
+            _graph_names(a.g, acc)
+        for g in a.graphs:
+            _graph_names(g, acc)
 
 
 def enc_function(f: onnx.FunctionProto, opts: dict, lits: Lits, used_order, depth: int = 8) -> str:
@@ -315,6 +352,31 @@ def _is_script_fn(fd) -> bool:
     return False
 
 
+def canon_imports(src: str) -> str:
+    """The opset import lines of the generated header: `alias` for `from onnxscript.onnx_opset import alias`,
+    `alias=domain:version` for `alias = Opset('domain', version)`, in textual order."""
+    out = []
+    try:
+        tree = ast.parse(src)
+    except SyntaxError:
+        tree = ast.parse(src.split("\n@script")[0].split("\n    @script")[0])
+    for s in tree.body:
+        if isinstance(s, ast.ImportFrom) and s.module == "onnxscript.onnx_opset":
+            out += [a.name for a in s.names]
+        elif (isinstance(s, ast.Assign) and isinstance(s.value, ast.Call) and isinstance(s.value.func, ast.Name)
+              and s.value.func.id == "Opset" and len(s.value.args) == 2):
+            out.append(f"{s.targets[0].id}={s.value.args[0].value}:{s.value.args[1].value}")
+    return "imports " + ",".join(out)
+
+
+def enc_imports(proto) -> str:
+    fd = hx(proto.domain) if isinstance(proto, onnx.FunctionProto) else "-"
+    toks = ["imports", fd, str(len(proto.opset_import))]
+    for i in proto.opset_import:
+        toks += [hx(i.domain), str(i.version)]
+    return " ".join(toks)
+
+
 def canon_program(src: str, lits: Lits) -> list[str]:
     """Canonical program lines of the (last) script function in the exporter's text."""
     depth = 1
@@ -332,39 +394,40 @@ def canon_program(src: str, lits: Lits) -> list[str]:
         top = [q for s in tree.body if isinstance(s, ast.If) for q in s.body]
         depth = 2
     out: list[str] = []
-    target = None
-    wrap = None
+    targets: list = []  # (FunctionDef, enclosing make_model or None), in textual order
     for s in top:
         if isinstance(s, ast.FunctionDef) and _is_script_fn(s):
-            target, wrap = s, None
+            targets.append((s, None))
         elif isinstance(s, ast.FunctionDef) and s.name == "make_model":
             for q in s.body:
                 if isinstance(q, ast.FunctionDef) and _is_script_fn(q):
-                    target, wrap = q, s
-    if target is None:
+                    targets.append((q, s))
+    if not targets:
         raise Unparsable("no script function")
-    if wrap is not None:
-        out.append("wrap " + ",".join(a.arg for a in wrap.args.args))
-        depth = 2
-    plain, attrs = [], []
-    for a in target.args.args:
-        if isinstance(a.annotation, ast.Name) and a.annotation.id in ("float", "int", "str", "bool"):
-            attrs.append(a.arg)
-        elif isinstance(a.annotation, ast.Subscript) and isinstance(a.annotation.value, ast.Name) and a.annotation.value.id in ("Sequence", "List"):
-            attrs.append(a.arg)
-        else:
-            plain.append(a.arg)
-    # the decorator: `@script(<positional names>, <kw>=<name>)`
-    deco_args = []
-    for d in target.decorator_list:
-        if isinstance(d, ast.Call) and isinstance(d.func, ast.Name) and d.func.id == "script":
-            for a in d.args:
-                deco_args.append(a.id if isinstance(a, ast.Name) else "?" + ast.dump(a)[:40])
-            for k in d.keywords:
-                deco_args.append(f"{k.arg}=" + (k.value.id if isinstance(k.value, ast.Name) else "?" + ast.dump(k.value)[:40]))
-    out.append("deco " + ",".join(deco_args))
-    out.append(f"sig {target.name}({','.join(plain)}|{','.join(attrs)})")
-    _stmts(target.body, depth, lits, out)
+    for idx, (target, wrap) in enumerate(targets):
+        d = depth if idx == len(targets) - 1 else 1
+        if wrap is not None:
+            out.append("wrap " + ",".join(a.arg for a in wrap.args.args))
+            d = 2
+        plain, attrs = [], []
+        for a in target.args.args:
+            if isinstance(a.annotation, ast.Name) and a.annotation.id in ("float", "int", "str", "bool"):
+                attrs.append(a.arg)
+            elif isinstance(a.annotation, ast.Subscript) and isinstance(a.annotation.value, ast.Name) and a.annotation.value.id in ("Sequence", "List"):
+                attrs.append(a.arg)
+            else:
+                plain.append(a.arg)
+        # the decorator: `@script(<positional names>, <kw>=<name>)`
+        deco_args = []
+        for dd in target.decorator_list:
+            if isinstance(dd, ast.Call) and isinstance(dd.func, ast.Name) and dd.func.id == "script":
+                for a in dd.args:
+                    deco_args.append(a.id if isinstance(a, ast.Name) else "?" + ast.dump(a)[:40])
+                for k in dd.keywords:
+                    deco_args.append(f"{k.arg}=" + (k.value.id if isinstance(k.value, ast.Name) else "?" + ast.dump(k.value)[:40]))
+        out.append("deco " + ",".join(deco_args))
+        out.append(f"sig {target.name}({','.join(plain)}|{','.join(attrs)})")
+        _stmts(target.body, d, lits, out)
     return out
 
 
